@@ -119,10 +119,10 @@ func init() {
 	})
 	// seconds are modelled as ext >> 30 (monotone, not the real quotient by 1e9)
 	reg("(time.Time).Unix", func(th *Thread, fr *frame, fn *ssa.Function, args []Value) Value {
-		return Bin(OpAShr, timeExt(args[0]), BV(64, 30))
+		return Bin(OpSDiv, ToInt(timeExt(args[0])), IntC(1<<30))
 	})
 	reg("time.Unix", func(th *Thread, fr *frame, fn *ssa.Function, args []Value) Value {
-		return th.p.timeValue(Bin(OpAdd, Bin(OpShl, args[0].(*Term), BV(64, 30)), args[1].(*Term)))
+		return th.p.timeValue(Bin(OpAdd, Bin(OpMul, ToInt(args[0].(*Term)), IntC(1<<30)), args[1].(*Term)))
 	})
 	ident := func(th *Thread, fr *frame, fn *ssa.Function, args []Value) Value { return args[0] }
 	for _, n := range []string{"UTC", "Local", "In", "Truncate", "Round"} {
